@@ -40,8 +40,9 @@ func c11cli(c *h.Ctx) {
 		content := []string{"single line\n", "two\nlines\n", "no trailing newline", "", "unicode żółć ✓\n", "with {{ braces }} inside\n"}[r.Intn(6)]
 		h.WriteFile(real+"/content", content)
 		exportAs := ""
-		if r.Chance(25) {
-			exportAs = "MY_EXPORT"
+		if r.Chance(35) {
+			// the name given with exportAs is used as given, whatever characters it has
+			exportAs = []string{"MY_EXPORT", "MY_EXPORT", "app.version", "build-id", "Mixed.Case-1"}[r.Intn(5)]
 		}
 		varName := exportAs
 		if varName == "" {
